@@ -130,7 +130,7 @@ type vmEffect struct {
 func emVMEffects(c *Ctx) map[string]vmEffect {
 	p := c.Pkg("homescript/runtime")
 	info := p.TypesInfo
-	fd := c.MustFunc("homescript/runtime", "Core", "runInstruction")
+	fd := emVMDispatch(c)
 	// role discovery: push = *Core method appending to the Stack field; pop = method re-slicing it
 	var push, pop []*types.Func
 	for _, m := range AllFuncDecls(p) {
@@ -386,7 +386,9 @@ type emitter struct {
 	ctors   map[*types.Func]bool // instruction constructors (first arg = opcode)
 	opcodeT types.Type
 	fns     map[*types.Func]*ast.FuncDecl
-	summ    map[*types.Func]*lin // computed helper summaries (nil = convention)
+	summ    map[*types.Func]*emSumm // computed summaries of leaf helpers (absent = convention by role)
+	role    map[*types.Func]emRole
+	exprDispatch, stmtDispatch *types.Func // the functions taking the AnalyzedExpression / AnalyzedStatement interface
 	inLoop  int
 	cur     *ast.FuncDecl
 	// tail symbols of the function being analysed: ν-symbols that were in tail position
@@ -797,9 +799,6 @@ func (e *emitter) walkFnOnce(fd *ast.FuncDecl) (exits []*emSt, overflow bool) {
 		}
 		sig, _ := fn.Type().(*types.Signature)
 		if sig == nil || sig.Recv() == nil {
-			if fn.Name() == "mangleLabel" {
-				return
-			}
 			return
 		}
 		if _, isEmitter := e.fns[fn]; !isEmitter {
@@ -809,23 +808,35 @@ func (e *emitter) walkFnOnce(fd *ast.FuncDecl) (exits []*emSt, overflow bool) {
 			return
 		}
 		s.last = nil
-		switch fn.Name() {
-		case "compileFn", "compileProgram", "Compile":
+		switch e.role[fn] {
+		case emRFrame, emRDriver:
 			// emits into another function's instruction list
 			return
 		}
 		if sm, ok := e.summ[fn]; ok && sm != nil {
-			s.h = s.h.add(*sm)
+			// substitute the actual arguments for the helper's parameters in its symbolic effect
+			sub := map[string]string{}
+			for i, pn := range sm.params {
+				if i < len(call.Args) && pn != "" && pn != "_" {
+					sub[pn] = exprStr(ast.Unparen(call.Args[i]))
+				}
+			}
+			eff := emSubst(sm.eff, sub)
+			s.h = s.h.add(eff)
 			s.tails = map[string]bool{}
 			switch {
-			case sm.c < 0:
-				s.spop(-sm.c + 1)
+			case eff.c < 0:
+				s.spop(-eff.c + 1)
 				s.spush("op:" + fn.Name())
-			case sm.c == 0:
+			case eff.c == 0:
 				s.spop(1)
 				s.spush("op:" + fn.Name())
 			default:
 				s.spush("op:" + fn.Name())
+			}
+			if sm.last != nil {
+				l := emSubst(*sm.last, sub)
+				s.last = &l
 			}
 			return
 		}
@@ -834,14 +845,14 @@ func (e *emitter) walkFnOnce(fd *ast.FuncDecl) (exits []*emSt, overflow bool) {
 		// a loop that keeps a value on the operand stack across its body leaks it on every
 		// such exit. So inside compileStmt, a body block / nested statement is compiled at
 		// the height the statement started with.
-		if e.cur.Name.Name == "compileStmt" && !e.collect && (fn.Name() == "compileBlock" || fn.Name() == "compileStmt") {
+		if curFn, _ := info.Defs[e.cur.Name].(*types.Func); curFn != nil && curFn == e.stmtDispatch && !e.collect && (e.role[fn] == emRBlockLike || fn == e.stmtDispatch) {
 			if h1 := e.w1(s.h); len(h1.s) != 0 || h1.c != 0 {
 				e.problem(s, call.Pos(), "%s is compiled while the statement holds %s extra value(s) on the operand stack: a break/continue/return inside it jumps to a label emitted at the base height and leaves them behind", exprStr(call), s.h)
 			}
 		}
 		// conventions (induction hypotheses, each checked on its own function)
-		switch fn.Name() {
-		case "compileStmt", "compileLetStmt", "compileSingletonInit":
+		switch e.role[fn] {
+		case emRStmtLike:
 			s.tails = map[string]bool{}
 			return
 		default:
@@ -890,7 +901,7 @@ func (e *emitter) walkFnOnce(fd *ast.FuncDecl) (exits []*emSt, overflow bool) {
 					}
 					r := ast.Unparen(x.Rhs[i])
 					if rc, ok := r.(*ast.CallExpr); ok {
-						if fn := CalleeOf(info, rc); fn != nil && fn.Name() == "mangleLabel" {
+						if fn := CalleeOf(info, rc); fn != nil && e.isNameMaker(fn) {
 							s.created[exprStr(l)] = true
 							continue
 						}
@@ -1176,7 +1187,7 @@ func (e *emitter) runWithLoopDepth(w *Walker[*emSt], fd *ast.FuncDecl, init *emS
 func ruleEmitBalance(c *Ctx) []Obligation {
 	p := c.Pkg("homescript/compiler")
 	info := p.TypesInfo
-	e := &emitter{c: c, info: info, vm: emVMEffects(c), ctors: map[*types.Func]bool{}, fns: map[*types.Func]*ast.FuncDecl{}, summ: map[*types.Func]*lin{}}
+	e := &emitter{c: c, info: info, vm: emVMEffects(c), ctors: map[*types.Func]bool{}, fns: map[*types.Func]*ast.FuncDecl{}, summ: map[*types.Func]*emSumm{}}
 	var obs []Obligation
 	// roles
 	opT := p.Types.Scope().Lookup("Opcode")
@@ -1269,6 +1280,7 @@ func ruleEmitBalance(c *Ctx) []Obligation {
 			e.fns[fn] = decl[fn]
 		}
 	}
+	e.classify(c, calls)
 	// VM effect table as evidence + inconsistent opcodes
 	var names []string
 	for k := range e.vm {
@@ -1284,17 +1296,42 @@ func ruleEmitBalance(c *Ctx) []Obligation {
 	// node kinds typed null by construction: analyzer builds them with ResultType: NewNullType(...)
 	nullKinds := emNullTypedNodes(c)
 	// 1. helpers with a single constant effect: iterate to a fixpoint over non-recursive helpers
-	helperOrder := []string{"arithmeticHelper", "compilePrefixOp", "compileIdentExpression"}
-	for _, name := range helperOrder {
-		for fn, fd := range e.fns {
-			if fn.Name() != name {
+	// leaf helpers (role emRHelper: emitter functions from which no recursive emitter function is
+	// reachable), summarised callees first
+	var helpers []*types.Func
+	for fn, r := range e.role {
+		if r == emRHelper {
+			helpers = append(helpers, fn)
+		}
+	}
+	sort.Slice(helpers, func(i, j int) bool { return helpers[i].Name() < helpers[j].Name() })
+	doneHelper := map[*types.Func]bool{}
+	for progress := true; progress; {
+		progress = false
+		for _, fn := range helpers {
+			if doneHelper[fn] {
 				continue
 			}
+			ready := true
+			for _, g := range calls[fn] {
+				if e.role[g] == emRHelper && g != fn && !doneHelper[g] {
+					ready = false
+				}
+			}
+			if !ready {
+				continue
+			}
+			doneHelper[fn] = true
+			progress = true
+			fd := e.fns[fn]
+			name := fn.Name()
 			exits, overflow := e.walkFn(fd)
 			o := Obligation{Key: "compiler." + name + "|one stack effect on all paths", Pos: c.Pos(fd.Pos()), Nontrivial: true}
 			var effs []string
 			var problems []string
 			var first *lin
+			var lasts []string
+			var last *lin
 			for _, x := range exits {
 				problems = append(problems, x.problems...)
 				if !x.reach {
@@ -1305,8 +1342,18 @@ func ruleEmitBalance(c *Ctx) []Obligation {
 					first = &h
 				}
 				effs = append(effs, h.String())
+				if x.last != nil {
+					l := *x.last
+					last = &l
+					lasts = append(lasts, l.String())
+				} else {
+					lasts = append(lasts, "-")
+				}
 			}
 			effs = uniqStrings(effs)
+			if len(uniqStrings(lasts)) != 1 {
+				last = nil
+			}
 			switch {
 			case overflow:
 				o.Status, o.Detail = Undecided, "path overflow"
@@ -1316,7 +1363,16 @@ func ruleEmitBalance(c *Ctx) []Obligation {
 				o.Status, o.Detail = Violated, "paths have different stack effects: "+strings.Join(effs, " vs ")
 			default:
 				o.Status, o.Detail = Discharged, "effect "+effs[0]
-				e.summ[fn] = first
+				sm := &emSumm{eff: *first, last: last}
+				for _, f := range fd.Type.Params.List {
+					for _, n := range f.Names {
+						sm.params = append(sm.params, n.Name)
+					}
+					if len(f.Names) == 0 {
+						sm.params = append(sm.params, "")
+					}
+				}
+				e.summ[fn] = sm
 			}
 			obs = append(obs, o)
 		}
@@ -1331,13 +1387,11 @@ func ruleEmitBalance(c *Ctx) []Obligation {
 	sort.Strings(fnames)
 	for _, name := range fnames {
 		fn := byName[name]
-		if _, done := e.summ[fn]; done {
+		switch e.role[fn] {
+		case emRHelper, emRDriver:
 			continue
 		}
-		switch name {
-		case "compileProgram", "Compile", "insert", "relocateLabels", "renameVariables":
-			continue
-		}
+		role := e.role[fn]
 		fd := e.fns[fn]
 		exits, overflow := e.walkFn(fd)
 		if overflow {
@@ -1347,7 +1401,7 @@ func ruleEmitBalance(c *Ctx) []Obligation {
 		groups := map[string][]*emSt{}
 		for _, x := range exits {
 			k := x.caseKey
-			if name != "compileExpr" && name != "compileStmt" {
+			if fn != e.exprDispatch && fn != e.stmtDispatch {
 				k = ""
 			}
 			groups[k] = append(groups[k], x)
@@ -1390,8 +1444,8 @@ func ruleEmitBalance(c *Ctx) []Obligation {
 					}
 				}
 				valueLike, want := false, 0
-				switch name {
-				case "compileExpr":
+				switch {
+				case fn == e.exprDispatch:
 					valueLike = true
 					for _, nk := range nullKinds {
 						if strings.Contains(gk, nk) {
@@ -1401,10 +1455,10 @@ func ruleEmitBalance(c *Ctx) []Obligation {
 					if strings.Contains(gk, "default") || strings.Contains(gk, "UnknownExpressionKind") {
 						continue
 					}
-				case "compileIfExpr", "compileInfixExpr", "compileCallExpr", "compileBlock":
+				case role == emRExprLike || role == emRBlockLike:
 					valueLike = true
-				case "compileStmt", "compileLetStmt", "compileSingletonInit":
-				case "compileFn":
+				case role == emRStmtLike:
+				case role == emRFrame:
 					// frame protocol: consumes its parameters, leaves the body's result; anything that
 					// scales with another list is residue per element
 					for k, n := range x.h.s {
@@ -1434,9 +1488,9 @@ func ruleEmitBalance(c *Ctx) []Obligation {
 						bad(fmt.Sprintf("= %d when the result is null, expected 0", h0.c))
 					case x.world == 0 && hasTail && !(ok1 && ok0):
 						bad(fmt.Sprintf("= %d when the result is non-null (expected 1) and %d when it is null (expected 0)", h1.c, h0.c))
-					case x.world == 0 && !hasTail && !ok1 && name != "compileBlock":
+					case x.world == 0 && !hasTail && !ok1 && role != emRBlockLike:
 						bad(fmt.Sprintf("= %d when every sub-expression yields a value, expected 1", h1.c))
-					case x.world == 0 && !hasTail && name == "compileBlock" && h1.c != 0:
+					case x.world == 0 && !hasTail && role == emRBlockLike && h1.c != 0:
 						bad(fmt.Sprintf("a block without result expression nets %d, expected 0", h1.c))
 					}
 				} else {
@@ -1537,4 +1591,243 @@ func emNullTypedNodes(c *Ctx) []string {
 		}
 	}
 	return uniqStrings(out)
+}
+
+
+// ---- roles of the emitter functions (resolved through parameter types and the call graph, never by name)
+
+type emRole int
+
+const (
+	emRNone      emRole = iota
+	emRHelper           // leaf helper: no recursive emitter function is reachable from it; summarised
+	emRExprLike         // first parameter is an analyzed expression: nets the value of that expression
+	emRBlockLike        // first parameter is the analyzed block: nets the value of its result expression
+	emRStmtLike         // anything else inside the recursion: nets nothing
+	emRFrame            // first parameter is a function definition: emits into that function's own list
+	emRDriver           // entry points above the recursion that call frame functions: emit into other lists
+)
+
+type emSumm struct {
+	eff    lin
+	last   *lin     // the integer pushed last (argument count), when the same on every path
+	params []string // parameter names, to substitute the actual arguments
+}
+
+// emSubst replaces parameter names by argument texts inside the symbols of a linear form.
+func emSubst(l lin, sub map[string]string) lin {
+	out := lin{c: l.c, s: map[string]int{}}
+	for k, v := range l.s {
+		out.s[emSubstSym(k, sub)] += v
+	}
+	return out
+}
+
+func emSubstSym(sym string, sub map[string]string) string {
+	if len(sub) == 0 {
+		return sym
+	}
+	var b strings.Builder
+	i := 0
+	isIdent := func(c byte) bool {
+		return c == '_' || c >= 'a' && c <= 'z' || c >= 'A' && c <= 'Z' || c >= '0' && c <= '9'
+	}
+	for i < len(sym) {
+		c := sym[i]
+		if isIdent(c) && !(c >= '0' && c <= '9') {
+			j := i
+			for j < len(sym) && isIdent(sym[j]) {
+				j++
+			}
+			word := sym[i:j]
+			// a selector's field name (preceded by '.') and a function name (followed by '(') are not variables
+			if rep, ok := sub[word]; ok && (i == 0 || sym[i-1] != '.') && !(j < len(sym) && sym[j] == '(') {
+				b.WriteString(rep)
+			} else {
+				b.WriteString(word)
+			}
+			i = j
+			continue
+		}
+		b.WriteByte(c)
+		i++
+	}
+	return b.String()
+}
+
+// isNameMaker: a non-emitting method of the compiler that maps a string to a (mangled) string —
+// label / variable / function names are created by such calls.
+func (e *emitter) isNameMaker(fn *types.Func) bool {
+	sig, _ := fn.Type().(*types.Signature)
+	if sig == nil || sig.Recv() == nil || sig.Results().Len() != 1 {
+		return false
+	}
+	if _, emits := e.fns[fn]; emits || fn == e.insert {
+		return false
+	}
+	if recvNamed(sig.Recv().Type()) == nil || recvNamed(sig.Recv().Type()).Obj().Name() != "Compiler" {
+		return false
+	}
+	b, ok := sig.Results().At(0).Type().Underlying().(*types.Basic)
+	return ok && b.Kind() == types.String
+}
+
+func (e *emitter) classify(c *Ctx, calls map[*types.Func][]*types.Func) {
+	e.role = map[*types.Func]emRole{}
+	ap := c.Pkg("homescript/analyzer/ast")
+	look := func(n string) types.Type {
+		o := ap.Types.Scope().Lookup(n)
+		if o == nil {
+			fatalf("anchor unresolved: analyzer/ast.%s", n)
+		}
+		return o.Type()
+	}
+	exprT, stmtT, blockT, fnDefT := look("AnalyzedExpression"), look("AnalyzedStatement"), look("AnalyzedBlock"), look("AnalyzedFunctionDefinition")
+	exprI, _ := exprT.Underlying().(*types.Interface)
+	if exprI == nil {
+		fatalf("anchor unresolved: analyzer/ast.AnalyzedExpression is not an interface")
+	}
+	// reachability inside the emitter set
+	reach := map[*types.Func]map[*types.Func]bool{}
+	var dfs func(root, fn *types.Func)
+	dfs = func(root, fn *types.Func) {
+		for _, g := range calls[fn] {
+			if _, ok := e.fns[g]; !ok {
+				continue
+			}
+			if !reach[root][g] {
+				reach[root][g] = true
+				dfs(root, g)
+			}
+		}
+	}
+	for fn := range e.fns {
+		reach[fn] = map[*types.Func]bool{}
+		dfs(fn, fn)
+	}
+	inCycle := func(fn *types.Func) bool { return reach[fn][fn] }
+	fromCycle := map[*types.Func]bool{}
+	for fn := range e.fns {
+		if inCycle(fn) {
+			for g := range reach[fn] {
+				fromCycle[g] = true
+			}
+		}
+	}
+	p0 := func(fn *types.Func) types.Type {
+		sig := fn.Type().(*types.Signature)
+		if sig.Params().Len() == 0 {
+			return nil
+		}
+		return sig.Params().At(0).Type()
+	}
+	for fn := range e.fns {
+		if t := p0(fn); t != nil && types.Identical(t, fnDefT) {
+			e.role[fn] = emRFrame
+		}
+	}
+	// drivers: not reachable from the recursion, calling a frame function or another driver
+	for changed := true; changed; {
+		changed = false
+		for fn := range e.fns {
+			if e.role[fn] != emRNone || fromCycle[fn] || inCycle(fn) {
+				continue
+			}
+			for _, g := range calls[fn] {
+				if e.role[g] == emRFrame || e.role[g] == emRDriver {
+					e.role[fn] = emRDriver
+					changed = true
+					break
+				}
+			}
+		}
+	}
+	for fn := range e.fns {
+		if e.role[fn] != emRNone {
+			continue
+		}
+		reachesCycle := false
+		for g := range reach[fn] {
+			if inCycle(g) {
+				reachesCycle = true
+			}
+		}
+		t := p0(fn)
+		// drivers are not analysed, so what they call directly must be closed by its own
+		// obligation (balanced by role), not merely summarised
+		calledByDriver := false
+		for d, r := range e.role {
+			if r == emRDriver {
+				for _, g := range calls[d] {
+					if g == fn {
+						calledByDriver = true
+					}
+				}
+			}
+		}
+		switch {
+		case !reachesCycle && !inCycle(fn) && !calledByDriver:
+			e.role[fn] = emRHelper
+		case t != nil && types.Identical(t, blockT):
+			e.role[fn] = emRBlockLike
+		case t != nil && (types.Identical(t, exprT) || (!types.IsInterface(t) && types.Implements(t, exprI))):
+			e.role[fn] = emRExprLike
+			if types.Identical(t, exprT) {
+				e.exprDispatch = fn
+			}
+		default:
+			e.role[fn] = emRStmtLike
+			if t != nil && types.Identical(t, stmtT) {
+				e.stmtDispatch = fn
+			}
+		}
+	}
+	if e.exprDispatch == nil || e.stmtDispatch == nil {
+		fatalf("anchor unresolved: the compiler's expression / statement dispatch functions (methods taking ast.AnalyzedExpression / ast.AnalyzedStatement)")
+	}
+}
+
+
+// emVMDispatch resolves the VM's instruction dispatcher by role: the method of runtime.Core
+// whose body holds the switch with the most clauses over compiler.Opcode constants.
+func emVMDispatch(c *Ctx) *ast.FuncDecl {
+	p := c.Pkg("homescript/runtime")
+	cp := c.Pkg("homescript/compiler")
+	opObj := cp.Types.Scope().Lookup("Opcode")
+	if opObj == nil {
+		fatalf("anchor unresolved: compiler.Opcode")
+	}
+	var best *ast.FuncDecl
+	bestN := 0
+	for _, fd := range AllFuncDecls(p) {
+		if fd.Recv == nil || fd.Body == nil || recvTypeName(fd.Recv.List[0].Type) != "Core" {
+			continue
+		}
+		ast.Inspect(fd.Body, func(n ast.Node) bool {
+			sw, ok := n.(*ast.SwitchStmt)
+			if !ok {
+				return true
+			}
+			cnt := 0
+			for _, st := range sw.Body.List {
+				cc, _ := st.(*ast.CaseClause)
+				if cc == nil {
+					continue
+				}
+				for _, v := range cc.List {
+					if k := ConstOf(p.TypesInfo, v); k != nil && types.Identical(k.Type(), opObj.Type()) {
+						cnt++
+					}
+				}
+			}
+			if cnt > bestN {
+				best, bestN = fd, cnt
+			}
+			return true
+		})
+	}
+	if best == nil || bestN < 20 {
+		fatalf("anchor unresolved: the runtime.Core method dispatching on compiler.Opcode (instruction switch)")
+	}
+	return best
 }
